@@ -503,6 +503,30 @@ func (c *c04case) describe(order int, rs []c04rec, opt obiformats.Options) strin
 	return sb.String()
 }
 
+// c04drain consumes the iterator returned by the writer (batches in the order the formatting workers handed them to
+// the writer goroutine) and records whether that order was the batch order.
+func c04drain(c *c04case, ni obiiter.IBioSequence) {
+	last, inOrder, seen := -1, true, 0
+	for ni.Next() {
+		o := ni.Get().Order()
+		if o < last {
+			inOrder = false
+		}
+		last = o
+		seen++
+	}
+	if seen != len(c.arrival) {
+		stat("writer:iterator lost or duplicated batches")
+	}
+	if c.pl > 0 || c.workers > 1 {
+		if inOrder {
+			stat("scheduled arrival: in batch order")
+		} else {
+			stat("scheduled arrival: out of batch order")
+		}
+	}
+}
+
 // c04jitter is the worker of the pipeline stage: it hands the batch on unchanged after a pseudo-random number of
 // yields (and sometimes a short sleep), so that the worker goroutines overtake each other.
 func c04jitter(sl obiseq.BioSequenceSlice) (obiseq.BioSequenceSlice, error) {
@@ -964,8 +988,9 @@ func (c04) Exec(line string) (string, []Fail) {
 		if c.paired {
 			it.MarkAsPaired()
 		}
+		src := it
 		if c.pl > 0 {
-			it = it.MakeISliceWorker(c04jitter, false, c.pl)
+			src = it.MakeISliceWorker(c04jitter, false, c.pl)
 		}
 		var ni obiiter.IBioSequence
 		var err error
@@ -981,18 +1006,18 @@ func (c04) Exec(line string) (string, []Fail) {
 			po := append(append([]obiformats.WithOption{}, opts...), obiformats.WritePairedReadsTo(f2))
 			switch w {
 			case "fasta":
-				ni, err = obiformats.WriteFastaToFile(it, f1, po...)
+				ni, err = obiformats.WriteFastaToFile(src, f1, po...)
 			case "fastq":
-				ni, err = obiformats.WriteFastqToFile(it, f1, po...)
+				ni, err = obiformats.WriteFastqToFile(src, f1, po...)
 			case "json":
-				ni, err = obiformats.WriteJSONToFile(it, f1, po...)
+				ni, err = obiformats.WriteJSONToFile(src, f1, po...)
 			case "csv":
-				ni, err = obiformats.WriteCSVToFile(it, f1, po...)
+				ni, err = obiformats.WriteCSVToFile(src, f1, po...)
 			}
 			if err != nil {
 				return "err"
 			}
-			ni.Consume()
+			c04drain(c, ni)
 			obiiter.WaitForLastPipe()
 			raw, _ = os.ReadFile(f1)
 			pairedOut, _ = os.ReadFile(f2)
@@ -1000,18 +1025,18 @@ func (c04) Exec(line string) (string, []Fail) {
 			out := &sink{}
 			switch w {
 			case "fasta":
-				ni, err = obiformats.WriteFasta(it, out, opts...)
+				ni, err = obiformats.WriteFasta(src, out, opts...)
 			case "fastq":
-				ni, err = obiformats.WriteFastq(it, out, opts...)
+				ni, err = obiformats.WriteFastq(src, out, opts...)
 			case "json":
-				ni, err = obiformats.WriteJSON(it, out, opts...)
+				ni, err = obiformats.WriteJSON(src, out, opts...)
 			case "csv":
-				ni, err = obiformats.WriteCSV(it, out, opts...)
+				ni, err = obiformats.WriteCSV(src, out, opts...)
 			}
 			if err != nil {
 				return "err"
 			}
-			ni.Consume()
+			c04drain(c, ni)
 			obiiter.WaitForLastPipe()
 			out.mu.Lock()
 			defer out.mu.Unlock()
@@ -1234,7 +1259,7 @@ func c04Oracle(c *c04case, opt obiformats.Options, res string, records, mates []
 			// a record left out of the first file while its mate is written: the files are out of step by
 			// construction (Props.C04.paired_skip_empty_out_of_step); both files are still compared with the model
 			stat("paired:skip-empty (files out of step, model comparison only)")
-		} else {
+		} else if !c04csvBlankRow(c, opt, all, allMates) {
 			fails = append(fails, c04Paired(c, out, pairedOut, all, allMates)...)
 		}
 	}
@@ -1348,6 +1373,22 @@ func c04readSeqFile(w string, out []byte) (ids, seqs []string) {
 		}
 	}
 	return
+}
+
+// c04csvBlankRow: a one-column CSV row holding the empty string is an empty line, which no CSV reader sees as a record
+func c04csvBlankRow(c *c04case, opt obiformats.Options, lists ...[]c04rec) bool {
+	if c.w != "csv" || len(obiformats.CSVHeader(opt)) != 1 {
+		return false
+	}
+	for _, l := range lists {
+		for _, r := range l {
+			if len(obiformats.CSVRecord(r.build(), opt)[0]) == 0 {
+				stat("csv:blank one-column row (reader oracle skipped)")
+				return true
+			}
+		}
+	}
+	return false
 }
 
 // c04sameValue: the value decoded by encoding/json is the annotation value (numbers by value, nested lists and maps)
